@@ -194,6 +194,12 @@ func internalMarshalAs(v any, slot reflect.Type, guard *cycleGuard) (*internalSt
 
 	// 计算指针层数
 	for rt.Kind() == reflect.Ptr {
+		if rt.Name() != "" && !(ret.PointerNum == 0 && slot == rt) {
+			// a named pointer type (type Handle *Session) cannot be registered, and only its pointer depth is
+			// recorded: the value gets its type back only where the decoder assigns it to a struct field of
+			// exactly that type, anywhere else it would come back as the unnamed pointer type
+			return nil, fmt.Errorf("unknown type: %v", rt)
+		}
 		ret.PointerNum++
 		if rv.IsNil() {
 			// record where the chain ends and keep counting the levels of the type
